@@ -231,12 +231,16 @@ fn main() {
                         built.push(b);
                     } else {
                         not_built += 1;
-                        eprintln!("C16: configuration {} gives no usable carousel (cycle {} transfers {:?})", c.name(), b.cycle_len, b.transfers.iter().map(|t| t.len()).collect::<Vec<_>>());
+                        if not_built <= 3 {
+                            eprintln!("C16: configuration {} gives no usable carousel (cycle {} transfers {:?})", c.name(), b.cycle_len, b.transfers.iter().map(|t| t.len()).collect::<Vec<_>>());
+                        }
                     }
                 }
                 Ok(Err(e)) => {
                     not_built += 1;
-                    eprintln!("C16: configuration {} not built: {}", c.name(), e);
+                    if not_built <= 3 {
+                        eprintln!("C16: configuration {} not built: {} (e.g. a compressed Raptor object whose blocks have 2-3 symbols is refused by flute)", c.name(), e);
+                    }
                 }
                 Err(p) => {
                     not_built += 1;
